@@ -66,6 +66,11 @@ def cases(seed, tier):
     for shape in ([0], [0, 3], [3, 0], [2, 0, 2], [], [1], [0, 0]):
         for extra in ('plain', 'dims', 'stack', 'labels_axis'):
             out.append({'stream': 'a', 'shape': shape, 'extra': extra})
+    # dim vectors of narrow / unsigned integer dtypes, evenly or unevenly spaced, ascending or descending (their differences wrap)
+    for shape in ([5], [3, 4], [2, 6]):
+        for dt in ('uint8', 'uint16', 'uint32', 'uint64', 'int8'):
+            for how in ('desc', 'asc', 'desc_uneven', 'wrap'):
+                out.append({'stream': 'a', 'shape': shape, 'extra': 'udims', 'dt': dt, 'how': how})
     for k in ('subarray', '0d', 'unstructured', 'pla_zero', 'pla_plain', 'empty_root', 'empty_md', 'root_only_md', 'nan_dims'):
         out.append({'stream': 'p', 'kind': k})
     # Array data of dtypes HDF5 may not take, as an Array / as a bare ndarray / as a list item: save raises or read returns the same
@@ -178,6 +183,11 @@ def run_one(args):
                 ds = shape
                 if extra == 'dims' and len(shape) >= 1:
                     kw['dims'] = [[0.5, 1.5]] + [None] * (len(shape) - 1)
+                if extra == 'udims':
+                    n = shape[0]
+                    v = {'desc': [3 * (n - 1 - i) + 1 for i in range(n)], 'asc': [2 * i + 1 for i in range(n)],
+                         'desc_uneven': [3 * (n - 1 - i) + (1 if i else 2) for i in range(n)], 'wrap': [100, -56 % 256 if c['dt'] != 'int8' else -56, 44][:n] + [50] * max(0, n - 3)}[c['how']]
+                    kw['dims'] = [np.array(v).astype(c['dt'])] + [None] * (len(shape) - 1)
                 if extra == 'stack' and len(shape) >= 1:
                     kw['slicelabels'] = True
                 if extra == 'labels_axis' and len(shape) >= 1:
